@@ -68,7 +68,7 @@ def _(eng, m, g, a): deref(a[0]).p += deref(a[1]).p; return UNIT
 @model(r"^std::string::String::new$")
 def _(eng, m, g, a): return StrV()
 @model(r"^std::string::String::is_empty$")
-def _(eng, m, g, a): return B(len(deref(a[0]).concrete()) == 0)
+def _(eng, m, g, a): return B(all(isinstance(x, str) and x == "" for x in deref(a[0]).p))      # a symbolic piece (number, char) is at least one character
 @model(r"^<(std::string::String|String) as ToOwned>::to_owned$|^<(std::string::String|String) as ToString>::to_string$|^<&str as Into<(std::string::)?String>>::into$")
 def _(eng, m, g, a): return StrV(list(deref(a[0]).p))
 @model(r"^std::vec::Vec::(new|len|push)$")
